@@ -221,46 +221,44 @@ func c18QueueAlignment(c *core.Ctx) {
 				}
 			}
 			// what is pushed: the taken packetsFn group, or nil
-			isTaken := func(e ast.Expr) bool { // nil, or the packetsFn.AllAndClear() value
+			// what is pushed: nil / the zero value, the packetsFn.AllAndClear()
+			// value, or a local every definition of which is one of those
+			// (followed through locals, so `group = packetsFn` is the taken group)
+			var isTaken func(e ast.Expr, depth int) bool
+			isTaken = func(e ast.Expr, depth int) bool {
+				if e == nil || depth > 4 {
+					return false
+				}
+				if _, isZero := e.(*core.ZeroValue); isZero {
+					return true
+				}
 				if core.IsNil(u.Info(), e) {
 					return true
 				}
-				d, k := u.SingleDef(e)
-				if _, isZero := d.(*core.ZeroValue); k && isZero {
-					return true
+				if ce, isCall := ast.Unparen(e).(*ast.CallExpr); isCall {
+					if calleeNameOf(ce) != "AllAndClear" {
+						return false
+					}
+					se, isS := ce.Fun.(*ast.SelectorExpr)
+					return isS && fieldOf(u.Info(), se.X) == "socket.packetsFn"
 				}
-				ce, _ := ast.Unparen(d).(*ast.CallExpr)
-				if !k || ce == nil || calleeNameOf(ce) != "AllAndClear" {
+				v, _ := core.ObjOf(u.Info(), e).(*types.Var)
+				if v == nil {
 					return false
 				}
-				se, isS := ce.Fun.(*ast.SelectorExpr)
-				return isS && fieldOf(u.Info(), se.X) == "socket.packetsFn"
+				defs := u.DefsOf(v)
+				if len(defs) == 0 {
+					return false
+				}
+				for _, d := range defs {
+					if !isTaken(d, depth+1) {
+						return false
+					}
+				}
+				return true
 			}
 			for _, p := range pushes {
-				a := p.Arg(0)
-				if isTaken(a) {
-					continue
-				}
-				// a local assigned on different paths: every definition must be nil/zero or the taken group
-				v, _ := core.ObjOf(u.Info(), a).(*types.Var)
-				defs := []ast.Expr{}
-				if v != nil {
-					defs = u.DefsOf(v)
-				}
-				good := len(defs) > 0
-				for _, d := range defs {
-					if d == nil {
-						good = false
-						continue
-					}
-					if _, isZero := d.(*core.ZeroValue); isZero {
-						continue
-					}
-					if !isTaken(d) {
-						good = false
-					}
-				}
-				if !good {
+				if !isTaken(p.Arg(0), 0) {
 					ok = false
 				}
 			}
